@@ -10,13 +10,16 @@ CHECK = {
     "level_text": "The generator is a small deterministic state machine (12 lagged 48-bit values, borrow, three indices): "
                   "for every seed of the alphabet every position 0..40 (three refill boundaries) is visited, its restart "
                   "image is compared with the state of an independent integer implementation of ranlxd2, it is saved, "
-                  "restored, run 100 steps further and saved again, and the first 600 outputs are compared bit for bit "
+                  "restored, run 100 steps further and saved again, set_seed(b) is applied in every position of a sub-alphabet "
+                  "of seed pairs (constructed and restored generators) and must give exactly the fresh generator of b, "
+                  "and the first 600 outputs are compared bit for bit "
                   "with the reference (and with GSL's ranlxd2 on the documented seed domain). Whole task-based runs are "
                   "executed four times per (configuration, seed) and all snapshot files compared. The state space walked "
                   "is finite and completely enumerated inside the stated bound, which is why model checking of the state "
                   "machine is the natural level; the whole-run part is exhaustive exploration of a small configuration alphabet.",
     "level_note": "Bound: 337 (quick) / 4 165 (thorough) of the 2^31 seeds with the full walk (600 outputs, save points 0..40), "
-                  "thorough additionally seeds 4096..131071 stream only; 57 024 / 215 424 boundary states injected through the "
+                  "thorough additionally seeds 4096..131071 stream only; re-seeding: 16 / 32 seeds a x 8 seeds b x positions 0..40 x "
+                  "{constructed, restored} = 10 496 / 20 992 set_seed transitions; 57 024 / 215 424 boundary states injected through the "
                   "restart constructor (alphabet {0,1,2,2^47,2^48-2,2^48-1}, <=2 / <=3 marked positions, both borrows, 12 "
                   "alignments) so that every borrow decision sees exact ties. Nothing is claimed for other seeds beyond the "
                   "argument in NOTES.md. Whole runs: 6 configurations x 2 (quick) / 3 (thorough) seeds, one thread, on this "
